@@ -10,7 +10,7 @@
 //!   mode    = primary (the damaged cross-reference data still parsed: no reconstruction ran)
 //!           | recovery (only the recovering parse succeeded) | fail:<class>
 //!   entries = num:offset:gen,… of the reconstructed table (recovery mode only, else `-`)
-//!   root    = /Root of the (reconstructed) trailer
+//!   root    = num.gen of /Root of the (reconstructed) trailer
 //!   pages   = <page count intact>,<page count damaged>
 //!   dumps   = cat=<digest>;num.gen=<digest|err:class>,…   (digest of a canonical dump)
 use oxiharness::*;
@@ -162,13 +162,13 @@ fn run(req: &str) -> String {
     };
     let (mode, entries, root) = match (&strict, &deflt) {
         (Ok(t), _) => {
-            let root = t.trailer().and_then(|d| d.get("Root")).and_then(|o| o.as_reference()).map(|r| r.0);
+            let root = t.trailer().and_then(|d| d.get("Root")).and_then(|o| o.as_reference()).map(|r| format!("{}.{}", r.0, r.1));
             ("primary".to_string(), "-".to_string(), root)
         }
         (Err(_), Ok(t)) => {
             let mut es: Vec<(u32, u64, u16)> = t.entries().iter().map(|(n, e)| (*n, e.offset, e.generation)).collect();
             es.sort();
-            let root = t.trailer().and_then(|d| d.get("Root")).and_then(|o| o.as_reference()).map(|r| r.0);
+            let root = t.trailer().and_then(|d| d.get("Root")).and_then(|o| o.as_reference()).map(|r| format!("{}.{}", r.0, r.1));
             (
                 "recovery".to_string(),
                 es.iter().map(|(n, o, g)| format!("{}:{}:{}", n, o, g)).collect::<Vec<_>>().join(","),
@@ -183,7 +183,7 @@ fn run(req: &str) -> String {
         "{}|{}|{}|{},{}|{}|{}",
         mode,
         if entries.is_empty() { "-".into() } else { entries },
-        root.map(|r| r.to_string()).unwrap_or_else(|| "none".into()),
+        root.unwrap_or_else(|| "none".into()),
         pi,
         pd,
         di,
